@@ -58,6 +58,7 @@ def main(argv):
     ctx = Ctx(pid, tier, seed)
     ctx.replay = json.load(open(replay)) if replay else None
 
+    dog = C.start_watchdog(pid, tier, seed, 1500 if tier == "quick" else 6 * 3600)
     ok_build, build_out = C.ensure_build()
     thm = C.recheck_theorems(pid) if ok_build else {"obligations": 1, "discharged": 0, "theorems": [], "closed": 0,
                                                     "axioms": [], "ok": False, "output": build_out, "banned": []}
@@ -160,6 +161,7 @@ def main(argv):
                      ["IEEE-754 rounding is not modelled (tolerance comparison on dyadic-grid inputs)",
                       "numpy/pandas vector semantics, Python dict/sort semantics are modelled, not verified"]
                      + list(res.assumptions), time.time() - t0, n_viol)
+    dog.cancel()
     for ln in lines:
         print(ln)
     print(f"{pid} {tier}: theorems {discharged}/{obligations}, correspondence {n_corr} cases "
